@@ -277,18 +277,19 @@ class C10World(World):
         # the twin is "the uncached transform holding the current parameters": mirror M tensor by tensor, dtype
         # included (an interrupted dtype conversion may leave mixed dtypes - then the uncached transform is torn in
         # exactly the same way)
-        msd = self.M.state_dict()
-        utensors = dict(self.U.named_parameters())
-        utensors.update(dict(self.U.named_buffers()))
+        pairs = list(zip(self.M.parameters(), self.U.parameters())) + list(zip(self.M.buffers(), self.U.buffers()))
+        if len(list(self.M.parameters())) != len(list(self.U.parameters())) or len(list(self.M.buffers())) != len(list(self.U.buffers())):
+            raise HarnessError("cached and uncached instance of the same spec have different numbers of parameters/buffers")
         with torch.no_grad():
-            for k, v in msd.items():
-                t = utensors.get(k)
-                if t is None:
-                    continue
+            # positional pairing: the two objects are instances of the same spec, so names (which a refactoring may map
+            # through state-dict hooks) do not matter
+            for v, t in pairs:
                 if t.dtype != v.dtype or t.shape != v.shape:
                     t.data = v.detach().clone()
                 else:
                     t.copy_(v)
+                if isinstance(t, torch.nn.Parameter):
+                    t.requires_grad_(v.requires_grad)
         for mm, um in zip(self.M.modules(), self.U.modules()):
             um.training = mm.training
         self._norms = None
@@ -381,8 +382,8 @@ class C10World(World):
         elif kind in ("train", "eval", "double", "float"):
             if kind in ("train", "eval") and self.cfg["nest"] != "bare" and sched.chance(0.3):
                 op["target"] = "leaf"
-            if faulty and fault.chance(0.1):
-                op["interrupt"] = fault.randint(1, 6 * (8 if self.cfg.get("opcode") else 1))
+            # no interruptions inside train()/eval()/double()/float(): the property's alphabet has completed mode
+            # switches and conversions only, and "invalidate after the switch" is as good as "before" over those
         elif kind == "use_cache":
             op["on"] = sched.chance(0.6)
         elif kind == "update":
@@ -792,11 +793,19 @@ class C10World(World):
         if how == "full":
             kw = {"assign": True} if op.get("assign") else {}
             k = op.get("interrupt") if self.cfg["faulty"] else None
+            errU = None
+            try:
+                self.U.load_state_dict({kk: vv.clone() for kk, vv in sd.items()}, strict=True, **kw)
+            except Exception as e:   # noqa: BLE001
+                errU = e
             try:
                 fired, _, _ = core.call_interruptible(lambda: self.M.load_state_dict(sd, strict=True, **kw), k,
                                                       opcode=self.cfg.get("opcode", False))
             except Exception as e:   # noqa: BLE001
-                raise Violation("raises_only_when_cached", "load_state_dict: %s: %s" % (type(e).__name__, str(e)[:300]))
+                if errU is None:
+                    raise Violation("raises_only_when_cached", "load_state_dict: %s: %s" % (type(e).__name__, str(e)[:300]))
+                fired = False
+                log.add("load_raised_on_both")
             if k:
                 (self.faults if fired else self.faults_missed)["interrupt_in_load"] += 1
                 if fired:
